@@ -1,388 +1,24 @@
-(* C08 - lemmas about calls in the shared reference interpreter Ref (coq/Lang/Sem.v):
-   frames are private and restored exactly, arguments are positional, defaults fill the trailing
-   parameters, a wrong argument count is rejected before anything is evaluated, the returned value
-   reaches the caller unchanged, statics are initialised once, persist, and are per function. *)
-From Coq Require Import List ZArith Bool Arith Lia.
-From Cb Require Import Lang.Syntax Lang.Sem Lang.Respect Lang.Theorems.
+From Coq Require Import List ZArith Bool Arith.
+From Cb Require Import Lang.Syntax Lang.Sem Lang.Print C08.Frames.
 Import ListNotations.
 Local Open Scope Z_scope.
-
-(* ------------------------------------------------------------------ frame shapes *)
-(* what a running activation may change of the frame stack: nothing below its own frame, and neither
-   the identity nor the block depth of its own frame *)
-Definition top_shape (s : state) : list (ident * nat) :=
-  map (fun f => (ffn f, List.length (fscopes f))) (firstn 1 (sframes s)).
-Definition below_kept (s s' : state) : Prop :=
-  tl (sframes s') = tl (sframes s) /\ top_shape s' = top_shape s.
-Definition frames_same (s s' : state) : Prop := sframes s' = sframes s.
-
-Lemma below_kept_refl s : below_kept s s. Proof. split; reflexivity. Qed.
-Lemma below_kept_trans a b c : below_kept a b -> below_kept b c -> below_kept a c.
-Proof. intros [H1 H2] [H3 H4]. split; congruence. Qed.
-Lemma frames_same_refl s : frames_same s s. Proof. reflexivity. Qed.
-Lemma frames_same_trans a b c : frames_same a b -> frames_same b c -> frames_same a c.
-Proof. unfold frames_same. congruence. Qed.
-Lemma frames_same_below s s' : frames_same s s' -> below_kept s s'.
-Proof. unfold frames_same, below_kept, top_shape. intros ->. split; reflexivity. Qed.
-
-Lemma scopes_set_length x e ss : List.length (scopes_set x e ss) = List.length ss.
-Proof. induction ss as [|sc r IH]; cbn; [reflexivity|]. destruct (assoc x sc); cbn; congruence. Qed.
-
-Lemma put_entry_below x e s : below_kept s (put_entry x e s).
-Proof.
-  destruct s as [g fs st o]. unfold put_entry, below_kept, top_shape. cbn [sframes sglob sstat sout].
-  destruct fs as [|f fr]; cbn; [split; reflexivity|].
-  destruct (scopes_get x (fscopes f)); cbn.
-  - rewrite scopes_set_length. split; reflexivity.
-  - destruct (assoc x _); cbn; split; reflexivity.
-Qed.
-
-Lemma write_below x i v : respects below_kept (m_write x i v).
-Proof.
-  intros s. unfold m_write. destruct (get_entry x s) as [e|]; [|apply below_kept_refl].
-  destruct (econst e); [apply below_kept_refl|].
-  destruct (flat_index _ _ _); [|apply below_kept_refl].
-  destruct (coerce _ _); try apply below_kept_refl. cbn [snd]. apply put_entry_below.
-Qed.
-Lemma declare_below sta cst t x d vs : respects below_kept (m_declare sta cst t x d vs).
-Proof.
-  intros s. destruct s as [g fs st o]. unfold m_declare. cbn [sframes sglob sstat sout].
-  destruct (coerce_all t vs); try apply below_kept_refl.
-  destruct fs as [|f fr]; [cbn; split; reflexivity|].
-  destruct sta; [cbn; split; reflexivity|].
-  destruct f as [fn scs]. destruct scs as [|sc scs]; cbn; split; reflexivity.
-Qed.
-Lemma out_below o : respects below_kept (m_out o).
-Proof. intros s. cbn. split; reflexivity. Qed.
-
-(* a block leaves the frame stack as it found it, up to what its inside does to the frames below
-   (nothing) and to the shape of the top frame (nothing) *)
-Lemma block_below A (m : M A) : respects below_kept m -> respects below_kept (m_push_scope ;;; finally m pop_scope_st).
-Proof.
-  intros Hm s. destruct s as [g fs st o]. unfold bind, m_push_scope. cbn [sframes sglob sstat sout].
-  destruct fs as [|f fr]; [apply below_kept_refl|].
-  unfold finally.
-  match goal with |- context [m ?s1] => specialize (Hm s1); destruct (m s1) as [c s2] end.
-  cbn [snd] in *. destruct Hm as [H1 H2]. destruct s2 as [g2 fs2 st2 o2]. unfold top_shape in *. cbn in H1, H2.
-  unfold pop_scope_st. cbn [sframes sglob sstat sout]. destruct fs2 as [|f2 fr2]; [discriminate|].
-  cbn in H1, H2. injection H2 as Hf Hl. subst fr2.
-  unfold below_kept, top_shape. cbn. split; [reflexivity|].
-  rewrite Hf. destruct (fscopes f2); cbn in *; [discriminate|]. injection Hl as ->. reflexivity.
-Qed.
-
-(* a call bracket restores the frame stack exactly *)
-Lemma frame_exact A f (m : M A) : respects below_kept m -> respects frames_same (m_push_frame f ;;; finally m pop_frame_st).
-Proof.
-  intros Hm s. unfold bind, m_push_frame, finally.
-  match goal with |- context [m ?s1] => specialize (Hm s1); destruct (m s1) as [c s2] end.
-  cbn [snd] in *. destruct Hm as [H1 _]. cbn in H1. unfold frames_same, pop_frame_st. cbn. exact H1.
-Qed.
-Lemma frame_below A f (m : M A) : respects below_kept m -> respects below_kept (m_push_frame f ;;; finally m pop_frame_st).
-Proof. intros Hm s. apply frames_same_below. apply frame_exact. exact Hm. Qed.
-
-Lemma below_kept_all funcs n :
-  (forall e, respects below_kept (eval funcs n e)) /\ (forall st, respects below_kept (exec funcs n st)).
-Proof.
-  apply eval_exec_respect.
-  - exact below_kept_refl.
-  - exact below_kept_trans.
-  - exact write_below.
-  - exact declare_below.
-  - exact out_below.
-  - exact block_below.
-  - exact frame_below.
-Qed.
-
-(* every expression - in particular every call, whatever the callee and its callees do, however
-   deep the recursion, whether it returns, fails or runs out of fuel - leaves the whole frame stack
-   exactly as it was: same frames, same variables, same values *)
-Lemma eval_frames_exact funcs n : forall e, respects frames_same (eval funcs n e).
-Proof.
-  induction n as [|k IH]; intros e; [apply (r_fail frames_same frames_same_refl)|].
-  pose proof (r_eval_list frames_same frames_same_refl frames_same_trans _ IH) as Hel.
-  destruct e; cbn [eval].
-  - apply (r_ret _ frames_same_refl).
-  - apply (r_read _ frames_same_refl).
-  - apply (r_bind _ frames_same_trans); [apply IH|]. intros. apply (r_lift _ frames_same_refl).
-  - apply (r_bind _ frames_same_trans); [apply IH|]. intros.
-    apply (r_bind _ frames_same_trans); [apply IH|]. intros. apply (r_lift _ frames_same_refl).
-  - apply (r_bind _ frames_same_trans); [apply IH|]. intros x. destruct (x =? 0); [apply (r_ret _ frames_same_refl)|].
-    apply (r_bind _ frames_same_trans); [apply IH|]. intros. apply (r_ret _ frames_same_refl).
-  - apply (r_bind _ frames_same_trans); [apply IH|]. intros x. destruct (x =? 0); [|apply (r_ret _ frames_same_refl)].
-    apply (r_bind _ frames_same_trans); [apply IH|]. intros. apply (r_ret _ frames_same_refl).
-  - apply (r_bind _ frames_same_trans); [apply IH|]. intros x. destruct (x =? 0); apply IH.
-  - destruct (find_func f funcs) as [fd|]; [|apply (r_fail _ frames_same_refl)].
-    match goal with |- respects _ (if ?c then _ else _) => destruct c end; [apply (r_fail _ frames_same_refl)|].
-    apply (r_bind _ frames_same_trans).
-    + apply (r_eval_args frames_same frames_same_refl frames_same_trans _ IH).
-    + intros vs. apply frame_exact.
-      apply (r_map_ctl below_kept).
-      apply (r_bind _ below_kept_trans).
-      * apply (r_bind_params below_kept below_kept_refl below_kept_trans declare_below).
-        apply (proj1 (below_kept_all funcs k)).
-      * intros _. apply (r_exec_list below_kept below_kept_refl below_kept_trans).
-        apply (proj2 (below_kept_all funcs k)).
-  - apply (r_bind _ frames_same_trans); [apply Hel|]. intros. apply (r_read _ frames_same_refl).
-Qed.
-
-(* ------------------------------------------------------------------ lookup is lexical *)
-(* what a body can read is decided by its own frame, its own statics and the globals; the frames of
-   its callers and the statics of other functions are never consulted *)
-Lemma get_entry_local x s1 s2 :
-  hd_error (sframes s1) = hd_error (sframes s2) -> sglob s1 = sglob s2 ->
-  statics_of (cur_fn s1) s1 = statics_of (cur_fn s2) s2 ->
-  get_entry x s1 = get_entry x s2.
-Proof.
-  unfold get_entry, cur_fn. destruct (sframes s1) as [|f1 r1], (sframes s2) as [|f2 r2]; cbn; intros H G S; try discriminate.
-  - rewrite G. reflexivity.
-  - injection H as ->. rewrite S, G. reflexivity.
-Qed.
-
-(* a store changes the top frame, or the statics of the running function, or the globals - never a
-   caller's frame and never another function's statics *)
-Lemma statics_of_set_other f g sc l : f <> g -> assoc g (set_stat f sc l) = assoc g l.
-Proof.
-  intros Hn. unfold set_stat. destruct (assoc f l) eqn:E.
-  - clear E. induction l as [|[y b] r IH]; cbn; [reflexivity|].
-    destruct (Nat.eqb f y) eqn:E1; cbn.
-    + apply Nat.eqb_eq in E1. subst y. destruct (Nat.eqb g f) eqn:E2; [apply Nat.eqb_eq in E2; congruence|reflexivity].
-    + destruct (Nat.eqb g y); [reflexivity|exact IH].
-  - cbn. destruct (Nat.eqb g f) eqn:E2; [apply Nat.eqb_eq in E2; congruence|reflexivity].
-Qed.
-Lemma statics_of_set_same f sc l : assoc f (set_stat f sc l) = Some sc.
-Proof.
-  unfold set_stat. destruct (assoc f l) eqn:E.
-  - induction l as [|[y b] r IH]; cbn in *; [discriminate|].
-    destruct (Nat.eqb f y) eqn:E1; cbn; rewrite E1; [reflexivity|]. apply IH. exact E.
-  - cbn. rewrite Nat.eqb_refl. reflexivity.
-Qed.
-
-Lemma put_entry_other_statics x e s g : g <> cur_fn s -> statics_of g (put_entry x e s) = statics_of g s.
-Proof.
-  destruct s as [gl fs st o]. unfold put_entry, cur_fn, statics_of. cbn [sframes sglob sstat sout].
-  destruct fs as [|f fr]; cbn; [reflexivity|]. intros Hn.
-  destruct (scopes_get x (fscopes f)); cbn; [reflexivity|].
-  destruct (assoc x _); cbn; [|reflexivity].
-  rewrite statics_of_set_other; [reflexivity|congruence].
-Qed.
-Lemma write_other_statics x i v s g : g <> cur_fn s -> statics_of g (snd (m_write x i v s)) = statics_of g s.
-Proof.
-  intros Hn. unfold m_write. destruct (get_entry x s) as [e|]; [|reflexivity].
-  destruct (econst e); [reflexivity|]. destruct (flat_index _ _ _); [|reflexivity].
-  destruct (coerce _ _); try reflexivity. cbn [snd]. apply put_entry_other_statics. exact Hn.
-Qed.
-Lemma declare_other_statics sta cst t x d vs s g : g <> cur_fn s -> statics_of g (snd (m_declare sta cst t x d vs s)) = statics_of g s.
-Proof.
-  intros Hn. destruct s as [gl fs st o]. unfold m_declare, cur_fn in *. cbn [sframes sglob sstat sout] in *.
-  destruct (coerce_all t vs); try reflexivity.
-  destruct fs as [|f fr]; [reflexivity|]. destruct sta; cbn.
-  - unfold statics_of. cbn. rewrite statics_of_set_other; [reflexivity|congruence].
-  - destruct (fscopes f); reflexivity.
-Qed.
-
-(* ------------------------------------------------------------------ statics: known for ever *)
-Definition static_known (g x : ident) (s : state) : Prop := assoc x (statics_of g s) <> None.
-Definition statics_grow (s s' : state) : Prop := forall g x, static_known g x s -> static_known g x s'.
-Lemma statics_grow_refl s : statics_grow s s. Proof. intros g x H. exact H. Qed.
-Lemma statics_grow_trans a b c : statics_grow a b -> statics_grow b c -> statics_grow a c.
-Proof. intros H1 H2 g x H. apply H2, H1, H. Qed.
-
-Lemma assoc_set_known {A} x y (a : A) l : assoc x (assoc_set y a l) <> None <-> assoc x l <> None.
-Proof.
-  induction l as [|[z b] r IH]; cbn; [tauto|].
-  destruct (Nat.eqb y z) eqn:E; cbn.
-  - destruct (Nat.eqb x z); [split; congruence|tauto].
-  - destruct (Nat.eqb x z); [split; congruence|exact IH].
-Qed.
-
-Lemma put_entry_statics_grow x e s : statics_grow s (put_entry x e s).
-Proof.
-  intros g y. destruct s as [gl fs st o]. unfold static_known, put_entry, statics_of. cbn [sframes sglob sstat sout].
-  destruct fs as [|f fr]; cbn; [tauto|].
-  destruct (scopes_get x (fscopes f)); cbn; [tauto|].
-  destruct (assoc x _) eqn:E; cbn; [|tauto].
-  destruct (Nat.eq_dec g (ffn f)) as [->|Hn].
-  - rewrite statics_of_set_same. intros H. apply assoc_set_known. exact H.
-  - rewrite statics_of_set_other by congruence. tauto.
-Qed.
-Lemma write_statics_grow x i v : respects statics_grow (m_write x i v).
-Proof.
-  intros s. unfold m_write. destruct (get_entry x s) as [e|]; [|apply statics_grow_refl].
-  destruct (econst e); [apply statics_grow_refl|]. destruct (flat_index _ _ _); [|apply statics_grow_refl].
-  destruct (coerce _ _); try apply statics_grow_refl. cbn [snd]. apply put_entry_statics_grow.
-Qed.
-Lemma declare_statics_grow sta cst t x d vs : respects statics_grow (m_declare sta cst t x d vs).
-Proof.
-  intros s. destruct s as [gl fs st o]. unfold m_declare. cbn [sframes sglob sstat sout].
-  destruct (coerce_all t vs); try apply statics_grow_refl.
-  destruct fs as [|f fr]; [intros g y H; exact H|]. destruct sta; cbn.
-  - intros g y. unfold static_known, statics_of. cbn.
-    destruct (Nat.eq_dec g (ffn f)) as [->|Hn].
-    + rewrite statics_of_set_same. cbn. destruct (Nat.eqb y x); [congruence|tauto].
-    + rewrite statics_of_set_other by congruence. tauto.
-  - destruct (fscopes f); intros g y H; exact H.
-Qed.
-
-Lemma statics_grow_all funcs n :
-  (forall e, respects statics_grow (eval funcs n e)) /\ (forall st, respects statics_grow (exec funcs n st)).
-Proof.
-  apply eval_exec_respect.
-  - exact statics_grow_refl.
-  - exact statics_grow_trans.
-  - exact write_statics_grow.
-  - exact declare_statics_grow.
-  - intros o s g x H. exact H.
-  - apply block_of_prims; [exact statics_grow_trans| |].
-    + intros s. unfold m_push_scope. destruct (sframes s); intros g x H; exact H.
-    + intros s. unfold pop_scope_st. destruct (sframes s); intros g x H; exact H.
-  - apply frame_of_prims; [exact statics_grow_trans| |].
-    + intros f s g x H. exact H.
-    + intros s g x H. exact H.
-Qed.
-
-(* a `static` declaration that finds its variable known does nothing: the initialiser is not
-   evaluated, the state is unchanged *)
-Lemma static_decl_known funcs k cst t x init s :
-  static_known (cur_fn s) x s -> exec funcs (S k) (SDecl cst true t x init) s = (Val tt, s).
-Proof.
-  intros H. cbn [exec]. unfold bind, m_static_known. unfold static_known in H.
-  destruct (assoc x (statics_of (cur_fn s) s)); [reflexivity|congruence].
-Qed.
-(* ... and the first one makes it known, with the initial value stored through the range check *)
-Lemma static_decl_first funcs k cst t x e s v s1 v' :
-  ~ static_known (cur_fn s) x s -> sframes s <> [] ->
-  eval funcs k e s = (Val v, s1) -> sframes s1 = sframes s -> coerce t v = Val v' ->
-  exists s2, exec funcs (S k) (SDecl cst true t x (Some e)) s = (Val tt, s2) /\
-             assoc x (statics_of (cur_fn s) s2) = Some {| ety := t; econst := cst; edims := []; evals := [v'] |} /\
-             sframes s2 = sframes s /\ sglob s2 = sglob s1 /\ sout s2 = sout s1.
-Proof.
-  intros Hk Hf He Hfr Hc. cbn [exec]. unfold bind at 1. unfold m_static_known. unfold static_known in Hk.
-  destruct (assoc x (statics_of (cur_fn s) s)); [exfalso; apply Hk; discriminate|].
-  Show. unfold bind. rewrite He. unfold m_declare. cbn [coerce_all]. rewrite Hc. cbn [coerce_all].
-  rewrite Hfr. unfold cur_fn. destruct (sframes s) as [|f fr] eqn:E; [congruence|].
-  eexists. split; [reflexivity|]. cbn. unfold statics_of at 1. cbn. rewrite statics_of_set_same. cbn.
-  rewrite Nat.eqb_refl. repeat split; reflexivity.
-Qed.
-
-(* pushing and popping frames, and output, never touch the statics table *)
-Lemma frame_ops_keep_statics f s :
-  sstat (snd (m_push_frame f s)) = sstat s /\ sstat (pop_frame_st s) = sstat s /\
-  sstat (pop_scope_st s) = sstat s /\ sstat (snd (m_push_scope s)) = sstat s.
-Proof.
-  repeat split; cbn; try reflexivity.
-  - unfold pop_scope_st. destruct (sframes s); reflexivity.
-  - unfold m_push_scope. destruct (sframes s); reflexivity.
-Qed.
-
-(* ------------------------------------------------------------------ arity *)
-Lemma arity_rejected_l funcs k f fd args s :
-  find_func f funcs = Some fd ->
-  (List.length args < required (fparams fd) \/ List.length (fparams fd) < List.length args)%nat ->
-  eval funcs (S k) (ECall f args) s = (Fail EArity, s).
-Proof.
-  intros Hf Hn. cbn [eval]. rewrite Hf.
-  assert (E : (List.length args <? required (fparams fd))%nat || (List.length (fparams fd) <? List.length args)%nat = true).
-  { apply orb_true_iff. destruct Hn; [left|right]; apply Nat.ltb_lt; assumption. }
-  rewrite E. reflexivity.
-Qed.
-
-Lemma call_unfold funcs k f fd args :
-  find_func f funcs = Some fd ->
-  (required (fparams fd) <= List.length args <= List.length (fparams fd))%nat ->
-  eval funcs (S k) (ECall f args) =
-  (vs <- eval_args (eval funcs k) (fparams fd) args ;;
-   m_push_frame f ;;;
-   finally (map_ctl (call_result (fret fd))
-              (bind_params (eval funcs k) (fparams fd) vs ;;; exec_list (exec funcs k) (fbody fd))) pop_frame_st).
-Proof.
-  intros Hf [H1 H2]. cbn [eval]. rewrite Hf.
-  assert (E : (List.length args <? required (fparams fd))%nat || (List.length (fparams fd) <? List.length args)%nat = false).
-  { apply orb_false_iff. split; apply Nat.ltb_ge; assumption. }
-  rewrite E. reflexivity.
-Qed.
-
-(* ------------------------------------------------------------------ arguments are positional *)
-(* the values handed to the callee: argument i evaluated in the caller, in order, each converted to
-   the type of parameter i *)
-Inductive args_eval (ev : expr -> M Z) : list param -> list expr -> state -> list Z -> state -> Prop :=
-| ae_nil ps s : args_eval ev ps [] s [] s
-| ae_cons p pr e r s w s1 v vs s2 :
-    ev e s = (Val w, s1) -> coerce (pty p) w = Val v -> args_eval ev pr r s1 vs s2 ->
-    args_eval ev (p :: pr) (e :: r) s (v :: vs) s2.
-
-Lemma eval_args_spec ev ps es s vs s' :
-  (List.length es <= List.length ps)%nat ->
-  eval_args ev ps es s = (Val vs, s') <-> args_eval ev ps es s vs s'.
-Proof.
-  revert ps s vs. induction es as [|e r IH]; intros ps s vs Hl.
-  - cbn. split.
-    + intros [= <- <-]. constructor.
-    + intros H. inversion H; subst. reflexivity.
-  - destruct ps as [|p pr]; [cbn in Hl; lia|]. cbn in Hl. cbn [eval_args]. unfold bind, lift, ret. split.
-    + destruct (ev e s) as [c s1] eqn:E1. destruct c; try discriminate.
-      destruct (coerce (pty p) a) eqn:E2; try discriminate.
-      destruct (eval_args ev pr r s1) as [c2 s2] eqn:E3. destruct c2; try discriminate.
-      intros [= <- <-]. econstructor; eauto. apply IH; [lia|exact E3].
-    + intros H. inversion H; subst. rewrite H3, H6.
-      apply IH in H8; [|lia]. rewrite H8. reflexivity.
-Qed.
-Lemma args_eval_length ev ps es s vs s' : args_eval ev ps es s vs s' -> List.length vs = List.length es.
-Proof. induction 1; cbn; congruence. Qed.
-
-(* binding: parameter i receives value i *)
-Definition scalar_entry (t : ty) (v : Z) : entry := {| ety := t; econst := false; edims := []; evals := [v] |}.
-Definition fresh_frame (f : ident) (s : state) : state := snd (m_push_frame f s).
-
-Fixpoint bound_scope (ps : list param) (vs : list Z) (acc : scope) : scope :=
-  match ps, vs with
-  | p :: pr, v :: vr => bound_scope pr vr ((pname p, scalar_entry (pty p) v) :: acc)
-  | _, _ => acc
-  end.
-
-Definition with_top_scope (s : state) (f : ident) (sc : scope) (fr : list frame) : state :=
-  {| sglob := sglob s; sframes := {| ffn := f; fscopes := [sc] |} :: fr; sstat := sstat s; sout := sout s |}.
-
-Lemma coerce_idem t v v' : coerce t v = Val v' -> coerce t v' = Val v'.
-Proof.
-  unfold coerce. destruct (uns t && (v <? 0)) eqn:E.
-  - intros [= <-]. apply andb_true_iff in E as [E _]. rewrite E. cbn.
-    unfold in_range, range. destruct (base t); rewrite E; reflexivity.
-  - destruct (in_range t v) eqn:E2; [|discriminate]. intros [= <-]. rewrite E, E2. reflexivity.
-Qed.
-
-Lemma bind_params_supplied ev ps vs s f acc fr :
-  List.length vs = List.length ps ->
-  Forall2 (fun p v => coerce (pty p) v = Val v) ps vs ->
-  bind_params ev ps vs (with_top_scope s f acc fr) = (Val tt, with_top_scope s f (bound_scope ps vs acc) fr).
-Proof.
-  revert vs acc. induction ps as [|p pr IH]; intros vs acc Hl HF.
-  - destruct vs; [reflexivity|discriminate].
-  - destruct vs as [|v vr]; [discriminate|]. inversion HF; subst.
-    cbn [bind_params bound_scope]. unfold bind at 1. unfold m_declare. cbn [coerce_all]. rewrite H2. cbn.
-    apply IH; [cbn in Hl; lia|assumption].
-Qed.
-
-Lemma bound_scope_lookup ps vs acc x :
-  List.length vs = List.length ps -> NoDup (map pname ps) ->
-  assoc x (bound_scope ps vs acc) =
-  match assoc x (combine (map pname ps) (combine (map pty ps) vs)) with
-  | Some (t, v) => Some (scalar_entry t v)
-  | None => assoc x acc
-  end.
-Proof.
-  revert vs acc. induction ps as [|p pr IH]; intros vs acc Hl Hn.
-  - destruct vs; reflexivity.
-  - destruct vs as [|v vr]; [discriminate|]. cbn [bound_scope map combine assoc].
-    inversion Hn; subst. rewrite IH; [|cbn in Hl; lia|assumption].
-    destruct (Nat.eqb x (pname p)) eqn:E.
-    + apply Nat.eqb_eq in E. subst x.
-      assert (Hnone : assoc (pname p) (combine (map pname pr) (combine (map pty pr) vr)) = None).
-      { clear -H1. revert vr. induction pr as [|q qr IHq]; intros vr; [reflexivity|].
-        destruct vr as [|w wr]; [reflexivity|]. cbn. cbn in H1.
-        destruct (Nat.eqb (pname p) (pname q)) eqn:E; [apply Nat.eqb_eq in E; exfalso; apply H1; left; congruence|].
-        apply IHq. intros H. apply H1. right. exact H. }
-      rewrite Hnone. cbn. rewrite Nat.eqb_refl. reflexivity.
-    + destruct (assoc x (combine (map pname pr) (combine (map pty pr) vr))) as [[t w]|]; [reflexivity|].
-      cbn. rewrite E. reflexivity.
-Qed.
-
+Definition tl_ := {| base := TLong; uns := false |}.
+Definition P (t : ty) (x : ident) := {| pty := t; pname := x; pdef := None |}.
+(* long f1(long v1, long v2) { if (v1 <= 0) { return v2; } return f1(v1 - 1, v2 + v1); }  main: println(f1(3,0)) *)
+Definition p_acc : program := {| pglobals := [];
+  pfuncs := [ {| fname := 1%nat; fret := Some tl_; fparams := [P tl_ 1%nat; P tl_ 2%nat];
+                fbody := [ SIf (EBin Le (EVar 1%nat) (ENum 0)) [SReturn (Some (EVar 2%nat))] [];
+                           SReturn (Some (ECall 1%nat [EBin Sub (EVar 1%nat) (ENum 1); EBin Add (EVar 2%nat) (EVar 1%nat)])) ] |} ];
+  pmain := [ SPrint true [ECall 1%nat [ENum 3; ENum 0]] ] |}.
+Compute (run 50 p_acc, mech_run false 50 p_acc, mech_run true 50 p_acc).
+(* long v1 = 5; long f1() { return v1; }  main: long v1 = 99; println(f1()); *)
+Definition p_glob : program := {| pglobals := [ {| gcst := false; gty := tl_; gname := 1%nat; gdims := []; ginit := [5] |} ];
+  pfuncs := [ {| fname := 1%nat; fret := Some tl_; fparams := []; fbody := [ SReturn (Some (EVar 1%nat)) ] |} ];
+  pmain := [ SDecl false false tl_ 1%nat (Some (ENum 99)); SPrint true [ECall 1%nat []] ] |}.
+Compute (run 50 p_glob, mech_run false 50 p_glob).
+(* long v1 = 7; long f1() { static long v1 = 0; v1 = v1 + 1; return v1; } main: println(f1()); println(f1()); println(v1); *)
+Definition p_stat : program := {| pglobals := [ {| gcst := false; gty := tl_; gname := 1%nat; gdims := []; ginit := [7] |} ];
+  pfuncs := [ {| fname := 1%nat; fret := Some tl_; fparams := [];
+                 fbody := [ SDecl false true tl_ 1%nat (Some (ENum 0)); SAssign (LVar 1%nat) None (EBin Add (EVar 1%nat) (ENum 1)); SReturn (Some (EVar 1%nat)) ] |} ];
+  pmain := [ SPrint true [ECall 1%nat []]; SPrint true [ECall 1%nat []]; SPrint true [EVar 1%nat] ] |}.
+Compute (run 50 p_stat, mech_run false 50 p_stat).
